@@ -311,6 +311,21 @@ func runM18File(c M18FileCase) *mOutcome {
 	default:
 		out.Failure = mfail("C18", "partial-file", "", "crash at %s: file holds %d bytes that are neither the old (%d) nor the new (%d) content", c.Label, len(got), len(oldB), len(newB))
 	}
+	if out.Failure != nil {
+		return out
+	}
+	// life goes on after the crash: the next rewrite (shorter content, whatever the crashed one left lying
+	// around) must again leave exactly its own bytes
+	next := m18Bytes("next", c.NewLen/3+1)
+	if err := writeFileAtomic(target, next); err != nil {
+		out.Failure = mfail("C18", "rewrite-after-crash-failed", "", "crash at %s, then a normal rewrite: %v", c.Label, err)
+		return out
+	}
+	if got2, err := os.ReadFile(target); err != nil || !bytes.Equal(got2, next) {
+		out.Failure = mfail("C18", "rewrite-after-crash-corrupt", "", "crash at %s, then a normal rewrite of %d bytes: the file holds %d bytes (err %v) that are not the submitted content", c.Label, len(next), len(got2), err)
+		return out
+	}
+	out.Labels = append(out.Labels, "rewrite-after-crash-ok")
 	return out
 }
 
